@@ -10,8 +10,8 @@ PROP = {
             "boundary value (0, 1, -1, MIN, MAX, MIN+1, MAX-1), or add/sub/mul overflows, saturates, returns None or divides by zero in some lane, or a shift count "
             "is 0, negative or >= width-1; distinct = distinct hash of (type, operand words), enumerations count their own indices.",
     "builds": {
-        "quick": [B("stable"), B("chk"), B("ovf", 0.25, False)],
-        "thorough": [B("stable"), B("chk", 0.5), B("ovf", 0.25, False)],
+        "quick": [B("stable"), B("chk"), B("ovf", 0.25, False), B("fma", 0.25, False)],
+        "thorough": [B("stable"), B("chk", 0.5), B("ovf", 0.25, False), B("fma", 0.25, False)],
     },
     "timeout": {"quick": 1800, "thorough": 7200},
     "technique": "property-based testing: exhaustive / strided operand-pair sweeps and boundary-biased proptest generation against the Rust integer primitive per lane "
